@@ -565,6 +565,57 @@ def rule_expressible(ctx: Ctx, rep: Report) -> None:
     rep.ob(rule, "btclib.curves.curve._sum_var:filters_infinity", bool(filt), sv.where(), "terms at infinity are filtered before the sum")
 
 
+HF_SENSITIVE_MODULES = {"btclib.ecc.dsa", "btclib.ecc.ssa"}
+
+
+def rule_predicate_args(ctx: Ctx, rep: Report) -> None:
+    """C04.predicate_args: the predicate is asked with the hash function wherever
+    one is in scope, and a class that keeps a token decides its arm once."""
+    rule = "C04.predicate_args"
+    n = 0
+    for fi in sorted(ctx.prog.functions.values(), key=lambda f: f.qualname):
+        calls = ctx.calls_to(fi, SERVES)
+        if not calls or fi.qualname == SERVES:
+            continue
+        names = {x.id for x in own_nodes(fi.node) if isinstance(x, ast.Name)} | set(fi.params())
+        attrs = {norm(x) for x in own_nodes(fi.node) if isinstance(x, ast.Attribute)}
+        f = fi
+        while f.parent is not None:
+            f = f.parent
+            names |= set(f.params())
+        hf_in_scope = "hf" in names or "self._hf" in attrs or (fi.cls is not None and any("_hf" in _self_stores_of(m) for m in fi.cls.methods.values()))
+        for c in calls:
+            n += 1
+            if len(c.args) < 2:
+                rep.ob(rule, f"{fi.qualname}:arity", False, fi.where(c), "the predicate takes (ec, hf)")
+                continue
+            a1 = norm(c.args[1])
+            # only the signature modules hand the bindings something that depends on the hash function
+            # (RFC 6979 / BIP340 nonce derivation inside libsecp256k1); elsewhere the delegated call is
+            # pure arithmetic and the hashing stays in Python
+            if hf_in_scope and fi.module.name in HF_SENSITIVE_MODULES:
+                ok = a1 in ("hf", "self._hf", "sha256")
+                rep.ob(rule, f"{fi.qualname}:hf", ok, fi.where(c), f"asked with {a1}" if ok else
+                       f"a hash function is in scope but the predicate is asked with `{a1}`: the bindings would serve a hash they do not implement")
+            else:
+                rep.ob(rule, f"{fi.qualname}:hf", a1 in ("None", "sha256", "hf", "self._hf"), fi.where(c), f"arithmetic-only delegation; asked with {a1}")
+    rep.floor(rule, 35)
+    # token classes decide once, at construction
+    for cls_q, field in TOKEN_FIELDS:
+        ci = ctx.cls(cls_q)
+        for name, m in sorted(ci.methods.items()):
+            if name in ("__init__", "__post_init__"):
+                continue
+            again = ctx.calls_to(m, SERVES)
+            rep.ob(rule, f"reask:{cls_q}.{name}", not again, m.where(again[0] if again else None),
+                   "the arm is selected by the token" if not again else
+                   "asks the predicate again after construction: a backend switch between building the object and using it selects an arm the object's state was not laid out for")
+
+
+def _self_stores_of(m: FuncInfo) -> set[str]:
+    return {x.attr for x in own_nodes(m.node) if isinstance(x, ast.Attribute) and isinstance(x.ctx, ast.Store) and isinstance(x.value, ast.Name) and x.value.id == "self"}
+
+
 RULES = [
     ("C04.single_door", rule_single_door),
     ("C04.flag_owner", rule_flag_owner),
@@ -572,6 +623,7 @@ RULES = [
     ("C04.no_foreign_escape", rule_no_foreign_escape),
     ("C04.both_arms", rule_both_arms),
     ("C04.expressible", rule_expressible),
+    ("C04.predicate_args", rule_predicate_args),
 ]
 
 CONTROLS = [
@@ -589,6 +641,10 @@ CONTROLS = [
      "edit": lambda ctx: M.sub_expr(ctx, "btclib.ecc.ssa.sign_", lambda n: isinstance(n, ast.ExceptHandler), lambda n: norm(n).replace("RuntimeError", "KeyError", 1))},
     {"rule": "C04.both_arms", "name": "commit_nonce_ python arm replaced by a raise", "module": "btclib.ecc.commit_nonce",
      "edit": lambda ctx: _kill_python_arm(ctx, "btclib.ecc.commit_nonce.commit_nonce_")},
+    {"rule": "C04.predicate_args", "name": "dsa.Signer asks the predicate without its hash function", "module": "btclib.ecc.dsa",
+     "edit": lambda ctx: M.sub_expr(ctx, "btclib.ecc.dsa.Signer.__init__", lambda n: isinstance(n, ast.Call) and call_name(n) == "_libsecp256k1_serves", "_libsecp256k1_serves(ec, None)")},
+    {"rule": "C04.predicate_args", "name": "ssa.Signer.sign_ re-asks the predicate", "module": "btclib.ecc.ssa",
+     "edit": lambda ctx: M.sub_expr(ctx, "btclib.ecc.ssa.Signer.sign_", M.is_text("self._signer is None"), "not _libsecp256k1_serves(self._ec, self._hf)")},
     {"rule": "C04.expressible", "name": "_mult_checked delegates a zero scalar", "module": "btclib.curves.curve",
      "edit": lambda ctx: M.sub_expr(ctx, "btclib.curves.curve._mult_checked", M.is_text("m and _libsecp256k1_serves(ec, None)"), "_libsecp256k1_serves(ec, None)")},
 ]
